@@ -47,6 +47,11 @@ func (p *OO) Order() int { return p.ord }
 
 type NO struct{ pinfo }
 
+// MO has the Priority marker method but no Order: it is not an ordered participant of any kind.
+type MO struct{ pinfo }
+
+func (p *MO) Priority() {}
+
 var ordGen = rapid.OneOf(
 	rapid.SampledFrom([]int{math.MinInt, -1, 0, 1, math.MaxInt, 2, 2, 3}),
 	rapid.IntRange(-5, 5),
@@ -54,8 +59,9 @@ var ordGen = rapid.OneOf(
 )
 
 type spec struct {
-	Class int
-	Ord   int
+	Class  int
+	Ord    int
+	Marker bool // unordered (no Order method) but carrying the Priority marker: still an unordered participant
 }
 
 func genSpecs(t *rapid.T, max int) []spec {
@@ -65,6 +71,8 @@ func genSpecs(t *rapid.T, max int) []spec {
 		s[i].Class = rapid.IntRange(0, 2).Draw(t, "class")
 		if s[i].Class != 2 {
 			s[i].Ord = ordGen.Draw(t, "ord")
+		} else {
+			s[i].Marker = rapid.IntRange(0, 3).Draw(t, "markeronly") == 0
 		}
 	}
 	return s
@@ -85,11 +93,19 @@ func describe(kind string, s []spec) (string, bool, []string) {
 			}
 			seen[k] = true
 			fmt.Fprintf(&sb, " %s(%d)", []string{"P", "O"}[x.Class], x.Ord)
+		} else if x.Marker {
+			sb.WriteString(" M")
 		} else {
 			sb.WriteString(" N")
 		}
 	}
 	var labels []string
+	for _, x := range s {
+		if x.Marker {
+			labels = append(labels, kind+"/priority-marker-without-order")
+			break
+		}
+	}
 	if ties {
 		labels = append(labels, kind+"/tie")
 	}
@@ -149,7 +165,11 @@ func TestDirect(t *testing.T) {
 			case 1:
 				in[i] = &OO{pi}
 			default:
-				in[i] = &NO{pi}
+				if s.Marker {
+					in[i] = &MO{pi}
+				} else {
+					in[i] = &NO{pi}
+				}
 			}
 		}
 		orig := append([]part(nil), in...)
@@ -186,6 +206,11 @@ type RunNO struct{ NO }
 func (r *RunNO) Run() error     { r.hit(); return nil }
 func (r *RunNO) Naming() string { return r.name }
 
+type RunMO struct{ MO }
+
+func (r *RunMO) Run() error     { r.hit(); return nil }
+func (r *RunMO) Naming() string { return r.name }
+
 func TestRunners(t *testing.T) {
 	kit.Rec.Rule(rule)
 	rapid.Check(t, func(t *rapid.T) {
@@ -200,7 +225,11 @@ func TestRunners(t *testing.T) {
 			case 1:
 				comps[i] = &RunOO{OO{pi}}
 			default:
-				comps[i] = &RunNO{NO{pi}}
+				if s.Marker {
+					comps[i] = &RunMO{MO{pi}}
+				} else {
+					comps[i] = &RunNO{NO{pi}}
+				}
 			}
 		}
 		comps = rapid.Permutation(comps).Draw(t, "regorder")
@@ -230,6 +259,10 @@ type LoadNO struct{ NO }
 
 func (r *LoadNO) LoadConfig() ([]byte, error) { r.hit(); return nil, nil }
 
+type LoadMO struct{ MO }
+
+func (r *LoadMO) LoadConfig() ([]byte, error) { r.hit(); return nil, nil }
+
 func TestLoaders(t *testing.T) {
 	kit.Rec.Rule(rule)
 	rapid.Check(t, func(t *rapid.T) {
@@ -244,7 +277,11 @@ func TestLoaders(t *testing.T) {
 			case 1:
 				ls[i] = &LoadOO{OO{pi}}
 			default:
-				ls[i] = &LoadNO{NO{pi}}
+				if s.Marker {
+					ls[i] = &LoadMO{MO{pi}}
+				} else {
+					ls[i] = &LoadNO{NO{pi}}
+				}
 			}
 		}
 		out := kit.RunApp(app.SetConfigLoader(ls...))
@@ -379,10 +416,46 @@ func (r *PPNO) PostProcessAfterInitialization(c any, n string) (any, error) {
 	return c, nil
 }
 
+// a post-processor that has another post-processor wired into it: the wired one finishes its creation first, which
+// must not move it in front of its holder in the sequence
+type depTarget interface{ isDepTarget() }
+type PPOOT struct{ PPOO }
+
+func (*PPOOT) isDepTarget() {}
+
+type PPOOW struct {
+	PPOO
+	Dep depTarget `wire:",required=false"`
+}
+
 func TestPostProcessors(t *testing.T) {
 	kit.Rec.Rule(rule)
 	rapid.Check(t, func(t *rapid.T) {
 		specs := genSpecs(t, 10)
+		// now and then two ordered processors are given Orders behind the built-in wiring processors, and the one
+		// with the smaller Order wires the other
+		wi, wj := -1, -1
+		if rapid.IntRange(0, 2).Draw(t, "wiredpair") == 0 {
+			for i := range specs {
+				if specs[i].Class != 1 {
+					continue
+				}
+				if wi < 0 {
+					wi = i
+				} else if wj < 0 {
+					wj = i
+				}
+			}
+			if wj >= 0 {
+				if rapid.Bool().Draw(t, "swap") {
+					wi, wj = wj, wi
+				}
+				specs[wi].Ord = 5 + rapid.IntRange(0, 5).Draw(t, "holderord")
+				specs[wj].Ord = 20 + rapid.IntRange(0, 5).Draw(t, "targetord")
+			} else {
+				wi = -1
+			}
+		}
 		var before, after, inst, earl, ear2 []int
 		comps := make([]any, len(specs))
 		lazies := 0
@@ -395,6 +468,10 @@ func TestPostProcessors(t *testing.T) {
 				lazies++
 			}
 			switch {
+			case i == wi && wj >= 0:
+				comps[i] = &PPOOW{PPOO: PPOO{OO{pi}, &after, ir}}
+			case i == wj && wi >= 0:
+				comps[i] = &PPOOT{PPOO{OO{pi}, &after, ir}}
 			case s.Class == 0 && lazy:
 				comps[i] = &PPPOL{PPPO{PO{pi}, &after, ir}}
 			case s.Class == 0:
@@ -409,6 +486,7 @@ func TestPostProcessors(t *testing.T) {
 				comps[i] = &PPNO{NO{pi}, &after, ir}
 			}
 		}
+		comps0 := append([]any(nil), comps...)
 		comps = append(comps, &Probe{}, &Probe2{})
 		comps = rapid.Permutation(comps).Draw(t, "regorder")
 		out := kit.RunApp(app.SetComponents(comps...))
@@ -437,10 +515,16 @@ func TestPostProcessors(t *testing.T) {
 			}
 		}
 		d, nt, labels := describe("postprocessors", specs)
+		if wi >= 0 && wj >= 0 {
+			if w := comps0[wi].(*PPOOW); w.Dep == nil {
+				t.Fatalf("the processor with Order %d did not get the processor with Order %d wired in", specs[wi].Ord, specs[wj].Ord)
+			}
+			labels = append(labels, "postprocessors/processor-wired-into-processor")
+			d += fmt.Sprintf(" wired %d->%d", wi, wj)
+		}
 		kit.Rec.Case(d, nt, labels...)
 	})
 }
-
 
 // ---- loaders, multi-step: initialise, add loaders, initialise again -------------------------------
 
